@@ -22,8 +22,12 @@ SDCI_SAMPLE = "SparseDrugComboInteractionMCMCSample"
 
 def gen_pipeline_screen(w, *, n_samples=None, n_names=None, n_plates=None, rows_per_plate=None,
                         single_sample_plates=False, observed_plates=None, control=None, allow_controls=True,
-                        nonzero=True):
+                        nonzero=True, big_rate=0.0):
     """An arity-2 screen without self-pairs, partially observed, values in (0,1)."""
+    if big_rate and w.random() < big_rate:
+        # more rows / samples / treatments than any plausible block size or one-byte id
+        n_samples, n_names = w.choice([3, 35, 70]), w.choice([6, 40, 135])
+        n_plates, rows_per_plate = w.choice([9, 34, 70]), w.choice([2, 4, 8])
     n_samples = n_samples or w.randint(1, 4)
     n_names = n_names or w.randint(3, 6)
     n_plates = n_plates or w.randint(2, 7)
